@@ -28,15 +28,17 @@ type C15Item struct {
 }
 
 type C15Case struct {
-	Backend string    `json:"backend"`
-	Depth   int       `json:"depth"`
-	Drop    string    `json:"drop"`
-	MaxBody int       `json:"max_body"`
-	Policy  string    `json:"policy,omitempty"` // "", require_actor, require_request_id, direct_off, no_pull, no_deliver
-	Scoped  bool      `json:"scoped,omitempty"`
-	Audit   string    `json:"audit,omitempty"`   // "", no-reason, no-actor, no-request-id
-	Prefill []string  `json:"prefill,omitempty"` // ids already queued (route /p)
-	Items   []C15Item `json:"items"`
+	Backend string   `json:"backend"`
+	Depth   int      `json:"depth"`
+	Drop    string   `json:"drop"`
+	MaxBody int      `json:"max_body"`
+	Policy  string   `json:"policy,omitempty"` // "", require_actor, require_request_id, direct_off, no_pull, no_deliver
+	Scoped  bool     `json:"scoped,omitempty"`
+	Audit   string   `json:"audit,omitempty"`   // "", no-reason, no-actor, no-request-id
+	Prefill []string `json:"prefill,omitempty"` // ids already queued (route /p)
+	// Fault: the store fails the batch enqueue of this request ("" | other | full | pressure)
+	Fault string    `json:"fault,omitempty"`
+	Items []C15Item `json:"items"`
 }
 
 func c15Text(c C15Case) string {
@@ -86,6 +88,7 @@ func genC15Case() *rapid.Generator[C15Case] {
 		c.Policy = rapid.SampledFrom([]string{"", "", "", "", "require_actor", "require_request_id", "direct_off", "no_pull", "no_deliver"}).Draw(t, "policy")
 		c.Scoped = rapid.IntRange(0, 4).Draw(t, "scoped") == 0
 		c.Audit = rapid.SampledFrom([]string{"", "", "", "", "no-reason", "no-actor", "no-request-id"}).Draw(t, "audit")
+		c.Fault = rapid.SampledFrom([]string{"", "", "", "", "", "", "other", "full", "pressure"}).Draw(t, "fault")
 		np := rapid.SampledFrom([]int{0, 0, 1, 2, c.Depth - 1, c.Depth}).Draw(t, "nprefill")
 		if np > 12 {
 			np = 2
@@ -300,7 +303,7 @@ func c15Build(c C15Case) (items []map[string]any, invalid map[int]string) {
 
 func runC15(c C15Case, _ bool) *fOutcome {
 	out := newFOutcome()
-	w, err := newFrontWorld(c15Text(c), worldOpts{backend: c.Backend})
+	w, err := newFrontWorld(c15Text(c), worldOpts{backend: c.Backend, faults: true})
 	if err != nil {
 		out.Failure = ffail("HARNESS", "world", 0, "%v\n%s", err, c15Text(c))
 		return out
@@ -353,7 +356,20 @@ func runC15(c C15Case, _ bool) *fOutcome {
 	if c.Scoped {
 		p = "/applications/app1/endpoints/e1/messages/publish"
 	}
+	if c.Fault != "" {
+		ferr := map[string]error{"full": queue.ErrQueueFull, "pressure": queue.ErrMemoryPressure}[c.Fault]
+		if ferr == nil {
+			ferr = errInjected
+		}
+		w.faults.mu.Lock()
+		w.faults.batchErr = ferr
+		w.faults.mu.Unlock()
+	}
 	rec := serve(w.adminH, FReq{Method: "POST", Path: p, Host: "a", Remote: "127.0.0.1:1", Body: body, Headers: hdrs})
+	w.faults.mu.Lock()
+	storeFailed := w.faults.batchHits > 0
+	w.faults.batchErr = nil
+	w.faults.mu.Unlock()
 	after, _ := w.dump()
 	added := newMsgs(before, after)
 	var resp struct {
@@ -372,6 +388,19 @@ func runC15(c C15Case, _ bool) *fOutcome {
 		out.Labels["request-"+requestLevel] = true
 	}
 	shouldRefuse := len(invalid) > 0 || requestLevel != "" || overflow
+	if storeFailed {
+		// the store refused the whole batch (nothing stored): the answer cannot be "published"
+		out.Labels["store-fault-"+c.Fault] = true
+		out.NonTriv = true
+		if rec.Code/100 == 2 {
+			out.Failure = ffail("C15,C01", "store-failure-answered-published", 0, "the store failed the batch enqueue (%s) but the publish was answered %d; %s", c.Fault, rec.Code, desc)
+			return out
+		}
+		if dumpKey(before) != dumpKey(after) {
+			out.Failure = ffail("C15,C12", "refused-but-changed", 0, "publish whose store call failed changed the queue (+%d); %s", len(added), desc)
+		}
+		return out
+	}
 	if rec.Code/100 == 2 {
 		if shouldRefuse {
 			out.Failure = ffail("C15", "invalid-batch-accepted", 0, "%s", desc)
